@@ -1,1 +1,514 @@
-//! shared code of the concurrent cache engines
+//! Shared code of the concurrent cache engines (`cache_hist`: C11/C13/C16, `loader`: C15).
+//!
+//! Everything here is client-boundary: values carry `(key, unique write id)`, every call is
+//! logged with a call stamp taken before and a return stamp taken after the library replied
+//! (`vh_core::stamp()`), the checkers run offline over the merged logs.
+
+use fibre_cache::policy::CachePolicy;
+use fibre_cache::{Cache, CacheBuilder, EvictionListener, EvictionReason};
+use serde_json::{json, Value};
+use std::hash::{BuildHasher, Hasher};
+use std::panic::{catch_unwind, AssertUnwindSafe};
+use std::sync::atomic::{AtomicU64, Ordering};
+use std::sync::{Arc, Mutex};
+use std::time::Duration;
+use vh_core::rng::{splitmix, Rng};
+
+pub mod check;
+pub mod work;
+
+// ------------------------------------------------------------------------------------------
+// values, hasher
+// ------------------------------------------------------------------------------------------
+
+/// Cache value: identifies its key and the write that created it; `n` is the in-place
+/// counter mutated by compute/try_compute.
+#[derive(Debug)]
+pub struct Val {
+  pub key: u64,
+  pub wid: u64,
+  pub n: u64,
+}
+
+/// Deterministic hasher so that shard / pending-load stripe of a key is known to the harness
+/// (`index = hash & (shards-1)` in store.rs / handles/*.rs).
+#[derive(Clone, Copy, Debug, Default)]
+pub struct KeyHash {
+  pub seed: u64,
+}
+pub struct KeyHasher {
+  state: u64,
+}
+impl BuildHasher for KeyHash {
+  type Hasher = KeyHasher;
+  fn build_hasher(&self) -> KeyHasher {
+    KeyHasher { state: self.seed ^ 0x51_7c_c1_b7_27_22_0a_95 }
+  }
+}
+impl Hasher for KeyHasher {
+  fn write(&mut self, bytes: &[u8]) {
+    for &b in bytes {
+      self.state = (self.state ^ b as u64).wrapping_mul(0x100000001b3);
+    }
+    self.state = splitmix(self.state);
+  }
+  fn write_u64(&mut self, v: u64) {
+    self.state = splitmix(self.state ^ v);
+  }
+  fn finish(&self) -> u64 {
+    self.state
+  }
+}
+impl KeyHash {
+  pub fn hash_u64(&self, key: u64) -> u64 {
+    let mut h = self.build_hasher();
+    h.write_u64(key);
+    h.finish()
+  }
+  /// Shard index == pending-load stripe index (both have `shards` slots).
+  pub fn stripe(&self, key: u64, shards: usize) -> usize {
+    self.hash_u64(key) as usize & (shards - 1)
+  }
+}
+
+// ------------------------------------------------------------------------------------------
+// cache configuration
+// ------------------------------------------------------------------------------------------
+
+#[derive(Clone, Copy, Debug, PartialEq, Eq)]
+pub enum Policy {
+  TinyLfu,
+  Sieve,
+  Slru,
+  Arc,
+  Lru,
+  Fifo,
+  Clock,
+  Random,
+}
+pub const ALL_POLICIES: [Policy; 8] =
+  [Policy::TinyLfu, Policy::Sieve, Policy::Slru, Policy::Arc, Policy::Lru, Policy::Fifo, Policy::Clock, Policy::Random];
+
+impl Policy {
+  pub fn name(self) -> &'static str {
+    match self {
+      Policy::TinyLfu => "tinylfu",
+      Policy::Sieve => "sieve",
+      Policy::Slru => "slru",
+      Policy::Arc => "arc",
+      Policy::Lru => "lru",
+      Policy::Fifo => "fifo",
+      Policy::Clock => "clock",
+      Policy::Random => "random",
+    }
+  }
+  pub fn from_name(s: &str) -> Option<Policy> {
+    ALL_POLICIES.iter().copied().find(|p| p.name() == s)
+  }
+}
+
+#[derive(Clone, Debug)]
+pub struct CacheCfg {
+  pub policy: Policy,
+  /// Use the builder's default policy selection instead of an explicit factory.
+  pub default_policy: bool,
+  pub shards: usize,
+  /// `None` = unbounded.
+  pub capacity: Option<u64>,
+  pub ttl: Option<Duration>,
+  pub tti: Option<Duration>,
+  pub swr: Option<Duration>,
+  pub janitor_tick_us: u64,
+  pub maint_chance: u32,
+  pub introspection: bool,
+  pub hseed: u64,
+  pub wheel: Option<(usize, Duration)>,
+}
+
+impl CacheCfg {
+  pub fn describe(&self) -> Value {
+    json!({"policy": if self.default_policy { "builder-default" } else { self.policy.name() },
+      "shards": self.shards, "capacity": self.capacity, "ttl_ms": self.ttl.map(|d| d.as_millis() as u64),
+      "tti_ms": self.tti.map(|d| d.as_millis() as u64), "swr_ms": self.swr.map(|d| d.as_millis() as u64),
+      "janitor_tick_us": self.janitor_tick_us, "maintenance_chance": self.maint_chance,
+      "maintenance_on_introspection": self.introspection, "hasher_seed": self.hseed,
+      "wheel": self.wheel.map(|(n, d)| json!([n, d.as_millis() as u64]))})
+  }
+  pub fn hasher(&self) -> KeyHash {
+    KeyHash { seed: self.hseed }
+  }
+  pub fn bounded(&self) -> bool {
+    self.capacity.is_some()
+  }
+}
+
+pub type SyncLoader = Arc<dyn Fn(u64) -> (Val, u64) + Send + Sync>;
+
+pub type TheCache = Cache<u64, Val, KeyHash>;
+pub type TheAsyncCache = fibre_cache::AsyncCache<u64, Val, KeyHash>;
+
+fn policy_box(p: Policy, shard_cap: u64) -> Box<dyn CachePolicy<u64, Val>> {
+  use fibre_cache::policy::*;
+  match p {
+    Policy::TinyLfu => Box::new(tinylfu::TinyLfuPolicy::<u64>::new(shard_cap)),
+    Policy::Sieve => Box::new(sieve::SievePolicy::<u64>::new()),
+    Policy::Slru => Box::new(slru::SlruPolicy::<u64>::new(shard_cap)),
+    Policy::Arc => Box::new(arc::ArcPolicy::<u64>::new(shard_cap as usize)),
+    Policy::Lru => Box::new(lru::LruPolicy::<u64>::new()),
+    Policy::Fifo => Box::new(fifo::Fifo::<u64>::new()),
+    Policy::Clock => Box::new(clock::ClockPolicy::<u64>::new()),
+    Policy::Random => Box::new(random::RandomPolicy::<u64>::new()),
+  }
+}
+
+/// Builder with everything but loader / spawner applied.
+pub fn base_builder(cfg: &CacheCfg, listener: Option<Arc<Recorder>>) -> CacheBuilder<u64, Val, KeyHash> {
+  let mut b = CacheBuilder::<u64, Val, KeyHash>::new()
+    .hasher(cfg.hasher())
+    .shards(cfg.shards)
+    .janitor_tick_interval(Duration::from_micros(cfg.janitor_tick_us))
+    .maintenance_chance(cfg.maint_chance)
+    .maintenance_on_introspection(cfg.introspection);
+  b = match cfg.capacity {
+    Some(c) => b.capacity(c),
+    None => b.unbounded(),
+  };
+  if !cfg.default_policy {
+    let p = cfg.policy;
+    let shard_cap = match cfg.capacity {
+      Some(c) => ((c as f64) / (cfg.shards as f64)).ceil() as u64,
+      None => 1024,
+    };
+    b = b.cache_policy_factory(move || policy_box(p, shard_cap));
+  }
+  if let Some(t) = cfg.ttl {
+    b = b.time_to_live(t);
+  }
+  if let Some(t) = cfg.tti {
+    b = b.time_to_idle(t);
+  }
+  if let Some(t) = cfg.swr {
+    b = b.stale_while_revalidate(t);
+  }
+  if let Some((n, d)) = cfg.wheel {
+    b = b.timer_wheel_size(n).timer_tick_duration(d);
+  }
+  if let Some(l) = listener {
+    b = b.eviction_listener(RecHandle(l));
+  }
+  b
+}
+
+pub fn build_cache(cfg: &CacheCfg, listener: Option<Arc<Recorder>>, loader: Option<SyncLoader>) -> TheCache {
+  let mut b = base_builder(cfg, listener);
+  if let Some(l) = loader {
+    b = b.loader(move |k| l(k));
+  }
+  b.build().expect("cache build")
+}
+
+// ------------------------------------------------------------------------------------------
+// eviction listener recorder
+// ------------------------------------------------------------------------------------------
+
+#[derive(Clone, Debug)]
+pub struct Notif {
+  pub stamp: u64,
+  pub key: u64,
+  pub vkey: u64,
+  pub wid: u64,
+  /// 0 Capacity, 1 Expired, 2 Invalidated
+  pub reason: u8,
+  /// Virtual clock (ns) read after the stamp, i.e. not before the library decided.
+  pub vnow: u64,
+}
+pub fn reason_name(r: u8) -> &'static str {
+  match r {
+    0 => "capacity",
+    1 => "expired",
+    _ => "invalidated",
+  }
+}
+
+#[derive(Default)]
+pub struct Recorder {
+  pub recs: Mutex<Vec<Notif>>,
+  pub count: AtomicU64,
+  /// Optional artificial slowness of the listener (microseconds per call).
+  pub slow_us: AtomicU64,
+}
+pub struct RecHandle(pub Arc<Recorder>);
+
+impl EvictionListener<u64, Val> for RecHandle {
+  fn on_evict(&self, key: u64, value: Arc<Val>, reason: EvictionReason) {
+    let stamp = vh_core::stamp();
+    let vnow = fibre_cache::verif_clock::now_nanos();
+    let r = match reason {
+      EvictionReason::Capacity => 0,
+      EvictionReason::Expired => 1,
+      EvictionReason::Invalidated => 2,
+    };
+    let n = Notif { stamp, key, vkey: value.key, wid: value.wid, reason: r, vnow };
+    drop(value);
+    self.0.recs.lock().unwrap().push(n);
+    self.0.count.fetch_add(1, Ordering::SeqCst);
+    let s = self.0.slow_us.load(Ordering::Relaxed);
+    if s > 0 {
+      std::thread::sleep(Duration::from_micros(s));
+    }
+  }
+}
+
+// ------------------------------------------------------------------------------------------
+// history
+// ------------------------------------------------------------------------------------------
+
+#[derive(Clone, Copy, Debug, PartialEq, Eq, Hash, PartialOrd, Ord)]
+#[repr(u8)]
+pub enum Kind {
+  Insert,
+  InsertTtl,
+  Remove,
+  Invalidate,
+  Clear,
+  MultiInsert,
+  MultiRemove,
+  MultiInvalidate,
+  Entry,
+  Compute,
+  TryCompute,
+  FetchWith,
+  Get,
+  Fetch,
+  Peek,
+  MultiGet,
+  Iter,
+  IterSnapshot,
+  RunMaintenance,
+  Metrics,
+}
+pub const N_KINDS: usize = 20;
+pub const ALL_KINDS: [Kind; N_KINDS] = [
+  Kind::Insert, Kind::InsertTtl, Kind::Remove, Kind::Invalidate, Kind::Clear, Kind::MultiInsert, Kind::MultiRemove,
+  Kind::MultiInvalidate, Kind::Entry, Kind::Compute, Kind::TryCompute, Kind::FetchWith, Kind::Get, Kind::Fetch,
+  Kind::Peek, Kind::MultiGet, Kind::Iter, Kind::IterSnapshot, Kind::RunMaintenance, Kind::Metrics,
+];
+
+impl Kind {
+  pub fn name(self) -> &'static str {
+    match self {
+      Kind::Insert => "insert",
+      Kind::InsertTtl => "insert_with_ttl",
+      Kind::Remove => "remove",
+      Kind::Invalidate => "invalidate",
+      Kind::Clear => "clear",
+      Kind::MultiInsert => "multi_insert",
+      Kind::MultiRemove => "multi_remove",
+      Kind::MultiInvalidate => "multi_invalidate",
+      Kind::Entry => "entry",
+      Kind::Compute => "compute",
+      Kind::TryCompute => "try_compute",
+      Kind::FetchWith => "fetch_with",
+      Kind::Get => "get",
+      Kind::Fetch => "fetch",
+      Kind::Peek => "peek",
+      Kind::MultiGet => "multiget",
+      Kind::Iter => "iter",
+      Kind::IterSnapshot => "iter_snapshot",
+      Kind::RunMaintenance => "run_maintenance",
+      Kind::Metrics => "metrics",
+    }
+  }
+  pub fn is_removal(self) -> bool {
+    matches!(self, Kind::Remove | Kind::Invalidate | Kind::Clear | Kind::MultiRemove | Kind::MultiInvalidate)
+  }
+  pub fn is_read(self) -> bool {
+    matches!(
+      self,
+      Kind::Entry | Kind::FetchWith | Kind::Get | Kind::Fetch | Kind::Peek | Kind::MultiGet | Kind::Iter | Kind::IterSnapshot
+    )
+  }
+}
+
+/// A value written by an operation.
+#[derive(Clone, Copy, Debug)]
+pub struct Wr {
+  pub key: u64,
+  pub wid: u64,
+  pub cost: u64,
+  /// ttl (ns) that applies to this value, 0 = none.
+  pub ttl_ns: u64,
+}
+/// A value observed by an operation for key `key` (the key asked / iterated).
+#[derive(Clone, Copy, Debug)]
+pub struct Obs {
+  pub key: u64,
+  pub vkey: u64,
+  pub wid: u64,
+  pub n: u64,
+}
+
+#[derive(Clone, Debug)]
+pub struct Ev {
+  pub thread: u16,
+  pub is_async: bool,
+  pub kind: Kind,
+  pub call: u64,
+  /// 0 while open.
+  pub ret: u64,
+  pub keys: Vec<u64>,
+  pub writes: Vec<Wr>,
+  pub obs: Vec<Obs>,
+  /// Values handed back by remove / multi_remove.
+  pub removed: Vec<Obs>,
+  /// invalidate -> found, compute -> true, try_compute -> Some(true)/Some(false)/None(=None)
+  pub flag: Option<bool>,
+  /// (wid, n after increment) per closure invocation of compute / try_compute.
+  pub bumps: Vec<(u64, u64)>,
+  /// Whether the entry-API closure ran.
+  pub closure_ran: bool,
+  /// Virtual clock (ns) read before the call.
+  pub vnow: u64,
+  pub panicked: Option<String>,
+  pub note: u64,
+}
+
+impl Ev {
+  pub fn new(thread: usize, kind: Kind, is_async: bool) -> Ev {
+    Ev {
+      thread: thread as u16,
+      is_async,
+      kind,
+      call: 0,
+      ret: 0,
+      keys: Vec::new(),
+      writes: Vec::new(),
+      obs: Vec::new(),
+      removed: Vec::new(),
+      flag: None,
+      bumps: Vec::new(),
+      closure_ran: false,
+      vnow: 0,
+      panicked: None,
+      note: 0,
+    }
+  }
+  pub fn is_open(&self) -> bool {
+    self.ret == 0
+  }
+  pub fn form(&self) -> String {
+    format!("{}{}", if self.is_async { "async." } else { "" }, self.kind.name())
+  }
+  pub fn to_json(&self) -> Value {
+    let mut m = serde_json::Map::new();
+    m.insert("t".into(), self.thread.into());
+    m.insert("op".into(), self.form().into());
+    m.insert("call".into(), self.call.into());
+    m.insert("ret".into(), self.ret.into());
+    if !self.keys.is_empty() {
+      m.insert("keys".into(), json!(self.keys));
+    }
+    if !self.writes.is_empty() {
+      m.insert("writes".into(), json!(self.writes.iter().map(|w| json!({"k": w.key, "w": w.wid, "cost": w.cost, "ttl_ms": w.ttl_ns / 1_000_000})).collect::<Vec<_>>()));
+    }
+    if !self.obs.is_empty() {
+      m.insert("saw".into(), json!(self.obs.iter().map(|o| json!({"k": o.key, "vk": o.vkey, "w": o.wid, "n": o.n})).collect::<Vec<_>>()));
+    }
+    if !self.removed.is_empty() {
+      m.insert("removed".into(), json!(self.removed.iter().map(|o| json!({"k": o.key, "w": o.wid})).collect::<Vec<_>>()));
+    }
+    if let Some(f) = self.flag {
+      m.insert("flag".into(), f.into());
+    }
+    if !self.bumps.is_empty() {
+      m.insert("bumps".into(), json!(self.bumps));
+    }
+    if self.closure_ran {
+      m.insert("closure_ran".into(), true.into());
+    }
+    if let Some(p) = &self.panicked {
+      m.insert("panicked".into(), p.clone().into());
+    }
+    Value::Object(m)
+  }
+}
+
+#[derive(Default)]
+pub struct Log {
+  pub evs: Mutex<Vec<Ev>>,
+}
+
+impl Log {
+  /// Pushes the event and takes the call stamp as the very last step.
+  pub fn begin(&self, mut ev: Ev) -> usize {
+    let mut g = self.evs.lock().unwrap();
+    let idx = g.len();
+    ev.vnow = fibre_cache::verif_clock::now_nanos();
+    ev.call = vh_core::stamp();
+    g.push(ev);
+    idx
+  }
+}
+
+/// Runs one monitored library call: call stamp before, return stamp right after the reply,
+/// results digested afterwards. A panic is recorded as outcome.
+pub fn run_op<R>(log: &Log, ev: Ev, call: impl FnOnce() -> R, fin: impl FnOnce(&mut Ev, R)) {
+  let idx = log.begin(ev);
+  let r = catch_unwind(AssertUnwindSafe(call));
+  let ret = vh_core::stamp();
+  let mut g = log.evs.lock().unwrap();
+  let e = &mut g[idx];
+  match r {
+    Ok(v) => fin(e, v),
+    Err(p) => {
+      e.panicked = Some(format!("{} @ {}", vh_core::panic_message(&*p), vh_core::last_panic_location()));
+    }
+  }
+  e.ret = ret;
+  drop(g);
+  vh_core::stuck::progress();
+}
+
+pub fn merge(logs: &[Arc<Log>]) -> Vec<Ev> {
+  let mut all: Vec<Ev> = Vec::new();
+  for l in logs {
+    all.extend(l.evs.lock().unwrap().iter().cloned());
+  }
+  all.sort_by_key(|e| e.call);
+  all
+}
+
+pub fn history_json(evs: &[Ev], cap: usize) -> Value {
+  Value::Array(evs.iter().take(cap).map(|e| e.to_json()).collect())
+}
+
+/// One loader invocation (logged inside the loader closure).
+#[derive(Clone, Debug)]
+pub struct LoadRec {
+  pub key: u64,
+  pub wid: u64,
+  pub cost: u64,
+  pub start: u64,
+  /// 0 while running.
+  pub end: u64,
+  pub vnow: u64,
+}
+
+/// A finding of some property's oracle.
+#[derive(Clone, Debug)]
+pub struct Finding {
+  pub prop: &'static str,
+  /// `<component>/<rule>/<variant>`; the signature is `<prop>/<sig>`.
+  pub sig: String,
+  pub summary: String,
+  pub detail: Value,
+}
+impl Finding {
+  pub fn signature(&self) -> String {
+    format!("{}/{}", self.prop, self.sig)
+  }
+}
+
+pub fn pick_profile(rng: &mut Rng) -> vh_core::chaos::Profile {
+  vh_core::chaos::Profile::pick(rng)
+}
